@@ -412,6 +412,10 @@ func ExecCfg(c CfgCase) (res core.Result) {
 				h4 = func(req, resp *dhcpv4.DHCPv4) (*dhcpv4.DHCPv4, bool) {
 					stop := false
 					for _, h := range l4 {
+						if h == nil {
+							// HandleMsg4 would call it: the server's crash, not the harness's
+							panic(core.Panicked{Value: "plugins.LoadPlugins returned a nil handler in the DHCPv4 chain; the server calls it (nil pointer dereference)"})
+						}
 						resp, stop = h(req, resp)
 						if stop {
 							break
@@ -422,6 +426,9 @@ func ExecCfg(c CfgCase) (res core.Result) {
 				h6 = func(req, resp dhcpv6.DHCPv6) (dhcpv6.DHCPv6, bool) {
 					stop := false
 					for _, h := range l6 {
+						if h == nil {
+							panic(core.Panicked{Value: "plugins.LoadPlugins returned a nil handler in the DHCPv6 chain; the server calls it (nil pointer dereference)"})
+						}
 						resp, stop = h(req, resp)
 						if stop {
 							break
